@@ -18,6 +18,10 @@ CHECKS = {
    technique="TLA+ abstract gateway S3Gw/S3GwBasic (version stacks): TLC checks TypeOK + VersionsPreserved exhaustively on a small model and simulates behaviours; each is replayed over HTTP with reply and full-state comparison after every step",
    text="The abstract spec S3Gw models buckets, version stacks (null version, delete markers, enable/suspend), copies and deletes by id; TLC checks its invariants and the action property VersionsPreserved exhaustively on a small configuration and generates random behaviours (empty bucket and a bucket whose object predates versioning). Every behaviour is replayed against a real gateway with a versioning directory; after every step the real reply and the real state (ListObjectVersions with rotating page sizes following markers, GET of every version id with bytes and metadata, GET by key) must equal the spec's prediction.",
    note="Simulation (not exhaustive) over 2 keys / 3 contents / <=9 steps per behaviour; one client issues version-creating writes sequentially; symbolic version ids bound to real ULIDs in creation order; deleting a key that has no version is modelled as a no-op (statement silent)."),
+ "C17": dict(design="5/C17",
+   technique="TLA+ IamCache (cache/store steps of lookup, create, update, delete) judged against LinKey's account reading; TLC enumerates all interleavings, forced through hooks on the real auth.IAMCache + file store and over HTTP; TLC validates every history",
+   text="The implementation-shaped spec IamCache (one action per stretch between the iam.* hook sites, with the cache's change counter) is model-checked: the design as implemented satisfies CompleteEntry and NoStaleAfterAck for all interleavings of 2-3 account operations incl. a lookup whose cache miss is in flight. TLC emits every interleaving of 13 scenario/initial-state combinations; each is forced on the real auth.IAMCache over the real internal file store in-process through blocking hooks, compared with the model's prediction, and the recorded history plus a lookup after quiescence is judged by TLC (LinKeyTrace, account reading: every lookup must be explainable by the acknowledged and concurrent effective mutations, and return a complete entry). The same is exercised end to end (admin API + signed requests, a signed request held at the miss window while the admin deletes/updates), and concurrent creates must all be in a store that parses.",
+   note="One gateway process (documented limitation of the internal IAM store); TTL expiry not exercised; uid/gid observed at library level and through list-users, not through file ownership."),
 }
 NOT_YET = {}
 def main():
